@@ -311,7 +311,7 @@ func init() {
 			writes := 0
 			for _, fi := range c.all {
 				r.Need(fi, fi.Name)
-				ast.Inspect(fi.Decl, func(n ast.Node) bool {
+				fi.inspect(fi.Decl.Body, func(n ast.Node) bool {
 					switch n := n.(type) {
 					case *ast.AssignStmt:
 						for i, l := range n.Lhs {
